@@ -18,6 +18,29 @@ def model_check(ctx, cfgs, timeout=3000):
         ctx.add_tlc(cfg.replace(".cfg", ""), r)
 
 
+class Background:
+    """TLC model-checking runs started at the beginning of a check and collected at its end (they are separate JVMs;
+    the recordings and trace validations proceed meanwhile)"""
+
+    def __init__(self, cfgs, controls=(), timeout=3000, workers=6):
+        from concurrent.futures import ThreadPoolExecutor
+        self.pool = ThreadPoolExecutor(max_workers=4)
+        self.mc = [(cfg, self.pool.submit(run_tlc, "OnionMC.tla", cfg, timeout=timeout, workers=workers)) for cfg in cfgs]
+        self.ctl = [(cfg, exp, name, self.pool.submit(run_tlc, "OnionMC.tla", cfg, coverage=False, timeout=timeout, workers=2))
+                    for cfg, exp, name in controls]
+
+    def collect(self, ctx):
+        for cfg, exp, name, fut in self.ctl:
+            r = fut.result()
+            ctx.control(name, (not r.ok) and (r.violated == exp or exp in (r.violated or "")))
+        for cfg, fut in self.mc:
+            r = fut.result()
+            if not r.ok:
+                raise MachineryError("Onion.tla %s: TLC reports %s on the specification itself" % (cfg, r.violated))
+            ctx.add_tlc(cfg.replace(".cfg", ""), r)
+        self.pool.shutdown()
+
+
 def spec_controls(ctx, controls, timeout=3000):
     for cfg, expected, name in controls:
         r = run_tlc("OnionMC.tla", cfg, coverage=False, timeout=timeout)
